@@ -68,7 +68,7 @@ def run(chk: Check, tier: str):
         # calls whose target address is symbolic: one frame per account the address may alias
         prog, inputs = progs_alias.fam_alias(rnd)
         items.append(Item(prog, inputs))
-    items += [it for it in probes.c01_probes() if it.key in ("probe:static-call-with-value", "probe:static-tstore")]
+    items += [it for it in probes.c01_probes() if it.key in ("probe:static-call-with-value", "probe:static-tstore", "probe:codesize-in-initcode-and-delegatecall")]
     kinds = {}
     for i in range(0, len(items), 100):
         if i:
